@@ -12,6 +12,11 @@ for pid, meta in base.items():
     src = open(path).read()
     ns = re.search(r"^namespace\s+(\S+)", src, re.M).group(1)
     names = [f"{ns}.{m}" for m in re.findall(r"^theorem\s+([\w.']+)", src, re.M)]
+    # the fixed statements file (if any) defines which theorems are the property's obligations; helpers are not counted
+    st = os.path.join(VERIF, "lean", "stmts", f"{pid}.lean.txt")
+    if os.path.exists(st):
+        want = [f"{ns}.{m}" for m in re.findall(r"^theorem\s+([\w.']+)", open(st).read(), re.M)]
+        names = [n for n in want if n in names] if all(n in names for n in want) else names
     d = dict(meta)
     d["theorems"] = names
     out[pid] = d
